@@ -5,7 +5,7 @@ CONSTANTS
   Addrs = {"s1", "s2"}
   Cmds = {"c1", "c2", "c3"}
   ValidCmds = {"c1", "c2"}
-  MaxSid = 3
+  MaxSid = 2
   MaxTime = 0
   Duration = 1
   Lease = 1
